@@ -1318,7 +1318,7 @@ def check(run: lib.Run, audit: dict) -> int:
         # 2. enumeration + random
         run_cases(run, tally, all_cases(run, scale=run.boost), tmpdir)
         if run.disagreements and not run.spec_failures and not violations:
-            run_cases(run, tally, all_cases(run, scale=4), tmpdir)   # correspondence broke: widen the search for a failing input
+            run_cases(run, tally, all_cases(run, scale=4 if run.boost == 1 else 2), tmpdir)   # correspondence broke: widen the search for a failing input
         # 3. verdicts
         if run.spec_failures:
             v = min(run.spec_failures, key=lambda x: (any(e["e"] == "conc" for e in x["case"]["history"]), len(x["case"]["history"])))
